@@ -21,11 +21,11 @@ INV = {
 
 
 def core_cfg(layouts, methods, xffs, horizon, ticks, maxbatch, vals="Vals12", valmode="free", withsync=False,
-             export="none", sample=1, invs=(), props=(), quirks="{}", actcon=None):
+             export="none", sample=1, invs=(), props=(), quirks="{}", actcon=None, future=0):
     lines = ["SPECIFICATION Spec", "CONSTANTS", "  Quirks = " + quirks,
              "  Layouts <- " + layouts, "  Methods <- " + methods, "  Xffs <- " + xffs,
              "  T0 = 100", "  Horizon = %d" % horizon, "  Ticks <- " + ticks, "  Vals <- " + vals, "  ValUnit = 12",
-             "  MaxBatch = %d" % maxbatch, '  ValMode = "%s"' % valmode,
+             "  MaxBatch = %d" % maxbatch, "  FutureMax = %d" % future, '  ValMode = "%s"' % valmode,
              "  WithSync = %s" % ("TRUE" if withsync else "FALSE"),
              '  Export = "%s"' % export, "  ExportSample = %d" % sample, "VIEW View"]
     if invs:
@@ -42,10 +42,13 @@ def core_cfg(layouts, methods, xffs, horizon, ticks, maxbatch, vals="Vals12", va
 MC_PLAN = {
     "quick": {
         "C01": [("MCLayoutsQuick", "MethodSum", "XffOne", 2, "Ticks12", 2, "Vals12"),
-                ("MCLayoutsC", "MethodSum", "XffOne", 5, "Ticks12J", 2, "Vals1")],
+                ("MCLayoutsC", "MethodSum", "XffOne", 5, "Ticks12J", 2, "Vals1"),
+                ("MCLayoutsC", "MethodSum", "XffOne", 3, "Ticks12", 2, "Vals1", 2)],      # batch points dated ahead of the clock
         "C02": [("MCLayoutsD", "MethodLast", "XffZero", 2, "Ticks12", 2, "Vals1"),
-                ("MCLayoutsQuick", "MethodsAll", "XffSet", 2, "Ticks12", 2, "Vals1")],
-        "C03": [("MCLayoutsQuick", "MethodSum", "XffOne", 2, "Ticks12", 2, "Vals12")],
+                ("MCLayoutsQuick", "MethodsAll", "XffSet", 2, "Ticks12", 2, "Vals1"),
+                ("MCLayoutsF", "MethodSum", "XffFifths", 1, "Ticks1", 2, "Vals1")],
+        "C03": [("MCLayoutsQuick", "MethodSum", "XffOne", 2, "Ticks12", 2, "Vals12"),
+                ("MCLayoutsQuick", "MethodSum", "XffOne", 1, "Ticks1", 2, "Vals1", 1)],
         "C04": [("MCLayoutsA", "MethodSum", "XffOne", 6, "Ticks1J", 1, "Vals1"),
                 ("MCLayoutsC", "MethodSum", "XffOne", 5, "Ticks12J", 1, "Vals1")],
         "C05": [("MCLayoutsQuick", "MethodSum", "XffOne", 1, "Ticks1", 1, "Vals1"),
@@ -58,7 +61,9 @@ MC_PLAN = {
                 ("MCLayoutsC", "MethodSum", "XffOne", 8, "Ticks12J", 3, "Vals12"),
                 ("MCLayoutsB", "MethodLast", "XffZero", 3, "Ticks12", 2, "Vals1"),
                 ("MCLayoutsD", "MethodSum", "XffOne", 3, "Ticks12", 2, "Vals1"),
-                ("MCLayouts3", "MethodSum", "XffOne", 2, "Ticks12", 2, "Vals1")],
+                ("MCLayouts3", "MethodSum", "XffOne", 2, "Ticks12", 2, "Vals1"),
+                ("MCLayoutsC", "MethodSum", "XffOne", 6, "Ticks12J", 2, "Vals1", 3),
+                ("MCLayoutsQuick", "MethodSum", "XffOne", 3, "Ticks12", 2, "Vals1", 2)],
         "C02": [("MCLayoutsD", "MethodsAll", "XffSet", 2, "Ticks12", 2, "Vals1"),
                 ("MCLayoutsQuick", "MethodsAll", "XffSet", 3, "Ticks12", 2, "Vals12"),
                 ("MCLayouts3", "MethodsAll", "XffSet", 1, "Ticks1", 2, "Vals1"),
@@ -85,9 +90,11 @@ MC_PLAN = {
 EXPORT_PLAN = {
     "quick": {
         "C01": [("MCLayoutsQuick", "MethodSum", "XffOne", 2, "Ticks12", 2, "Vals1", 8, "all"),
-                ("MCLayoutsC", "MethodSum", "XffOne", 5, "Ticks12J", 2, "Vals1", 4, "all")],
+                ("MCLayoutsC", "MethodSum", "XffOne", 5, "Ticks12J", 2, "Vals1", 4, "all"),
+                ("MCLayoutsC", "MethodSum", "XffOne", 3, "Ticks12", 2, "Vals1", 2, "all", 2)],
         "C02": [("MCLayoutsD", "MethodsAll", "XffZero", 2, "Ticks12", 2, "Vals1", 4, "edges"),
-                ("MCLayoutsQuick", "MethodsAll", "XffOne", 2, "Ticks12", 2, "Vals1", 16, "edges")],
+                ("MCLayoutsQuick", "MethodsAll", "XffOne", 2, "Ticks12", 2, "Vals12", 16, "edges"),
+                ("MCLayoutsF", "MethodSum", "XffFifths", 1, "Ticks1", 2, "Vals1", 4, "edges")],   # known fraction exactly at a non-dyadic xFilesFactor
         "C03": [("MCLayoutsQuick", "MethodSum", "XffOne", 2, "Ticks12", 2, "Vals12", 24, "edges"),
                 ("MCLayoutsD", "MethodSum", "XffOne", 2, "Ticks12", 2, "Vals1", 4, "edges")],
         "C04": [("MCLayoutsA", "MethodSum", "XffOne", 6, "Ticks1J", 1, "Vals1", 1, "states"),
@@ -103,7 +110,8 @@ EXPORT_PLAN = {
         "C02": [("MCLayoutsD", "MethodsAll", "XffSet", 2, "Ticks12", 2, "Vals1", 4, "edges"),
                 ("MCLayoutsQuick", "MethodsAll", "XffSet", 2, "Ticks12", 2, "Vals12", 16, "edges"),
                 ("MCLayouts3", "MethodsAll", "XffSet", 1, "Ticks1", 2, "Vals1", 16, "edges"),
-                ("MCLayoutsB", "MethodsAll", "XffSet", 1, "Ticks1", 2, "Vals1", 16, "edges")],
+                ("MCLayoutsB", "MethodsAll", "XffSet", 1, "Ticks1", 2, "Vals1", 16, "edges"),
+                ("MCLayoutsF", "MethodsQuick", "XffFifths", 2, "Ticks12", 2, "Vals1", 8, "edges")],
         "C03": [("MCLayoutsQuick", "MethodSum", "XffOne", 3, "Ticks12", 3, "Vals1", 64, "edges"),
                 ("MCLayoutsB", "MethodSum", "XffOne", 2, "Ticks12", 2, "Vals1", 8, "edges"),
                 ("MCLayoutsD", "MethodSum", "XffOne", 2, "Ticks12", 2, "Vals1", 8, "edges"),
@@ -119,8 +127,8 @@ EXPORT_PLAN = {
     },
 }
 
-TRACES = {"quick": {"C01": 96, "C02": 96, "C03": 96, "C04": 64, "C05": 96, "C06": 0},
-          "thorough": {"C01": 1600, "C02": 1600, "C03": 1600, "C04": 800, "C05": 1600, "C06": 0}}
+TRACES = {"quick": {"C01": 96, "C02": 96, "C03": 96, "C04": 64, "C05": 96, "C06": 64},
+          "thorough": {"C01": 1600, "C02": 1600, "C03": 1600, "C04": 800, "C05": 1600, "C06": 1600}}
 
 TRACE_CFG = 'SPECIFICATION Spec\nCONSTANTS\n  Quirks = {}\n  Prop = "%s"\nPOSTCONDITION Accepted\nCHECK_DEADLOCK FALSE\n'
 
@@ -155,24 +163,29 @@ def _run_core(prop, tier, seed, v, wd):
         mcs = MC_PLAN[tier][prop]
         exps = EXPORT_PLAN[tier].get(prop, [])
         nw = max(2, NCPU // max(1, min(4, len(mcs) + len(exps))))
-        for i, (lay, meth, xff, hor, ticks, mb, vals) in enumerate(mcs):
-            cfg = core_cfg(lay, meth, xff, hor, ticks, mb, vals=vals, withsync=(prop == "C05"), invs=invs, props=props)
-            futs.append(("mc", (lay, meth, xff, hor, ticks, mb, vals),
+        for i, pl in enumerate(mcs):
+            (lay, meth, xff, hor, ticks, mb, vals), fut = pl[:7], (pl[7] if len(pl) > 7 else 0)
+            cfg = core_cfg(lay, meth, xff, hor, ticks, mb, vals=vals, withsync=(prop == "C05"), invs=invs, props=props, future=fut)
+            futs.append(("mc", pl,
                          ex.submit(run_tlc, wd, "MC_Core", cfg, "mc%d" % i, nw, 7000)))
         # 2. export edges / states for spec -> code replay
-        for i, (lay, meth, xff, hor, ticks, mb, vals, sample, kind) in enumerate(exps):
-            cfg = core_cfg(lay, meth, xff, hor, ticks, mb, vals=vals, export=kind, sample=sample,
+        for i, pl in enumerate(exps):
+            (lay, meth, xff, hor, ticks, mb, vals, sample, kind), fut = pl[:9], (pl[9] if len(pl) > 9 else 0)
+            cfg = core_cfg(lay, meth, xff, hor, ticks, mb, vals=vals, export=kind, sample=sample, future=fut,
                            invs=["ExportState"] if kind in ("states", "all") else [],
                            actcon="ExportEdge" if kind in ("edges", "all") else None)
-            futs.append(("export", (lay, meth, xff, hor, ticks, mb, vals, sample, kind),
+            futs.append(("export", pl,
                          ex.submit(run_tlc, wd, "MC_Core", cfg, "ex%d" % i, nw, 7000,
                                    None, None, None, ["-seed", str(seed)])))
         # 3. driver traces (code -> spec)
         ntr = TRACES[tier][prop]
         trace_file = os.path.join(wd, "traces.ndjson")
         if ntr:
-            p = subprocess.run([binp, "drive-core", prop, str(seed), "0", str(ntr), trace_file],
-                               stdout=subprocess.PIPE, stderr=subprocess.STDOUT, text=True)
+            if prop == "C06":   # files written by the reference implementation, read by both readers
+                dcmd = [binp, "drive-gw", str(seed), str(ntr), trace_file]
+            else:
+                dcmd = [binp, "drive-core", prop, str(seed), "0", str(ntr), trace_file]
+            p = subprocess.run(dcmd, stdout=subprocess.PIPE, stderr=subprocess.STDOUT, text=True)
             if p.returncode != 0:
                 raise Broken("driver failed: " + p.stdout[-2000:])
         results = [(k, meta, f.result()) for k, meta, f in futs]
@@ -228,6 +241,19 @@ def _run_core(prop, tier, seed, v, wd):
             for i, line in enumerate(f):
                 if i in (1, 2):
                     cov_samples.append(json.loads(line))
+    extra_cov = {}
+    if prop == "C05":
+        # CLI part: a copy / sum-copy failing before its final Sync leaves an existing destination untouched
+        outj = os.path.join(wd, "c05cli.json")
+        p = subprocess.run([binp, "c05-cli", str(seed), str({"quick": 8, "thorough": 80}[tier]), outj],
+                           stdout=subprocess.PIPE, stderr=subprocess.STDOUT, text=True)
+        if p.returncode != 0:
+            raise Broken("c05-cli failed: " + p.stdout[-1500:])
+        r5 = json.load(open(outj))
+        for viol in r5["violations"]:
+            v.violation("%s: %s" % (viol["what"], viol["detail"]), {"kind": "core-c05cli", "seed": seed, "case": viol["line"]}, None)
+        extra_cov = {"cli_failing_before_sync_executions": r5["executions"]}
+        cov_samples += r5.get("samples", [])[:1]
     coverage = {
         "states": states, "transitions": transitions,
         "traces_validated_against_impl": replayed_edges + replayed_states + (traces_total - rejected if ntr else 0),
@@ -239,6 +265,7 @@ def _run_core(prop, tier, seed, v, wd):
         "driver_traces": traces_total, "driver_trace_lines_accepted": lines_ok, "driver_trace_lines": lines_total,
         "invariants": invs, "action_properties": props,
     }
+    coverage.update(extra_cov)
     return v.finish("model_checking", coverage, ASSUME["common"])
 
 
